@@ -1,4 +1,5 @@
 import MiniMcmcVerif.Props.C15
+import MiniMcmcVerif.Props.C15Rosen
 import Mathlib.Probability.Distributions.Gaussian.Real
 
 /-!
